@@ -466,6 +466,10 @@ func (fr *Frame) block(b *ssa.BasicBlock, entryGuard string, entryHeap Heap, pos
 			e = or(old, e)
 		}
 		fr.edge[key] = g.define(fr.prefix+fmt.Sprintf("edge%d_%d", b.Index, s.Index), "Bool", e)
+		if fr.top && g.edgeCovers {
+			last := b.Instrs[len(b.Instrs)-1]
+			g.items = append(g.items, Item{Oblig: true, Guard: "true", F: fr.edge[key], Name: fmt.Sprintf("%s.edge%d_%d", fr.unitName, b.Index, s.Index), Kind: "cover", Group: "edgecover", Pos: g.posOf(fr.fn, last.Pos())})
+		}
 	}
 	switch t := last.(type) {
 	case *ssa.If:
